@@ -2,6 +2,7 @@ package command
 
 import (
 	"bufio"
+	"bytes"
 	"context"
 	"errors"
 	"io"
@@ -357,9 +358,10 @@ func (o *ipPortScanCmdOpts) newIPPortGenerator() (reqgen scan.RequestGenerator) 
 			return os.Open(o.ipFile)
 		})
 	}
+	openStdin := newStdinOpener()
 	ipgen := scan.NewFileIPGenerator(func() (io.ReadCloser, error) {
 		if o.ipFile == "-" {
-			return io.NopCloser(os.Stdin), nil
+			return openStdin()
 		}
 		return os.Open(o.ipFile)
 	})
@@ -489,13 +491,33 @@ func (o *genericScanCmdOpts) newIPPortGenerator() (reqgen scan.RequestGenerator)
 			return os.Open(o.ipFile)
 		})
 	}
+	openStdin := newStdinOpener()
 	ipgen := scan.NewFileIPGenerator(func() (io.ReadCloser, error) {
 		if o.ipFile == "-" {
-			return io.NopCloser(os.Stdin), nil
+			return openStdin()
 		}
 		return os.Open(o.ipFile)
 	})
 	return scan.NewIPPortGenerator(ipgen, scan.NewPortGenerator())
+}
+
+// newStdinOpener returns an open function for the list of addresses on stdin.
+// The list is iterated once per port, but stdin can be consumed only once,
+// so it is read into memory on the first call and replayed on the next ones.
+func newStdinOpener() func() (io.ReadCloser, error) {
+	var data []byte
+	var err error
+	read := false
+	return func() (io.ReadCloser, error) {
+		if !read {
+			data, err = io.ReadAll(os.Stdin)
+			read = true
+		}
+		if err != nil {
+			return nil, err
+		}
+		return io.NopCloser(bytes.NewReader(data)), nil
+	}
 }
 
 func parsePortRange(portsRange string) (r *scan.PortRange, err error) {
